@@ -346,7 +346,9 @@ def get_strategy_base():
                 lo = min(min(p for _, p in rows), float(self.price))
                 hi = max(max(p for _, p in rows), float(self.price))
                 inside = None
-                if (self._plan or {}).get('style') == 'ladder' and len(rows) > 1 and pr.get('p_sl_inside_ladder', 0.0) > 0 \
+                cur = float(self.price)
+                all_limit = all(p < cur for _, p in rows) if side == 'long' else all(p > cur for _, p in rows)
+                if (self._plan or {}).get('style') == 'ladder' and len(rows) > 1 and all_limit and pr.get('p_sl_inside_ladder', 0.0) > 0 \
                         and pr['sl_rows'] > 0 and self._uu('go', 'sl_inside', 1.0) < pr['p_sl_inside_ladder']:
                     # a stop between the first row to fill and the planned average entry: on its proper side of
                     # the price the position is actually opened at, but not of the average of the declared points
